@@ -4,7 +4,7 @@ use dashu_int::{IBig, UBig};
 use dashu_macros::{static_ibig, static_ubig};
 
 pub fn ubank() -> &'static [&'static UBig] {
-    static BANK: [&UBig; 7] = [
+    static BANK: [&UBig; 9] = [
         static_ubig!(0),
         static_ubig!(1),
         static_ubig!(0xffffffffffffffff),
@@ -12,18 +12,22 @@ pub fn ubank() -> &'static [&'static UBig] {
         static_ubig!(0xfedcba9876543210_0123456789abcdef_fedcba9876543210),
         static_ubig!(123456789012345678901234567890123456789012345678901234567890123456789012345678901234567890),
         static_ubig!(0x8000000000000000_0000000000000000_0000000000000000_0000000000000000_0000000000000000_0000000000000000_0000000000000000_0000000000000000_0000000000000000_0000000000000001),
+        static_ubig!(0x8000000000000000_0000000000000000_0000000000000000_0000000000000000_0000000000000000_0000000000000000_0000000000000000_0000000000000000_0000000000000000_0000000000000003),
+        static_ubig!(0xfedcba9876543210_0123456789abcdef_fedcba9876543210_0123456789abcdef_fedcba9876543210_0123456789abcdef_fedcba9876543210_0123456789abcdef),
     ];
     &BANK
 }
 
 pub fn ibank() -> &'static [&'static IBig] {
-    static BANK: [&IBig; 6] = [
+    static BANK: [&IBig; 8] = [
         static_ibig!(0),
         static_ibig!(-1),
         static_ibig!(-0xffffffffffffffff),
         static_ibig!(-0x1_0000_0000_0000_0000_0000_0000_0000_0001),
         static_ibig!(0xfedcba9876543210_0123456789abcdef_fedcba9876543210),
         static_ibig!(-123456789012345678901234567890123456789012345678901234567890123456789012345678901234567890),
+        static_ibig!(-0x8000000000000000_0000000000000000_0000000000000000_0000000000000000_0000000000000000_0000000000000000_0000000000000000_0000000000000000_0000000000000000_0000000000000001),
+        static_ibig!(-0x8000000000000000_0000000000000000_0000000000000000_0000000000000000_0000000000000000_0000000000000000_0000000000000000_0000000000000000_0000000000000000_0000000000000005),
     ];
     &BANK
 }
